@@ -24,6 +24,8 @@ inductive Err
   | undeclared        -- ErrorUndeclaredCursor      11002
   | closed            -- ErrorCursorClosed          11003
   | alreadyOpen       -- ErrorCursorOpen            11004
+  | pseudo            -- ErrorPseudoCursor          11006
+  | fetchLength       -- ErrorCursorFetchLength     11007
   | invalidPosition   -- ErrorInvalidFetchPosition  11008
   deriving DecidableEq, Repr, Inhabited
 
@@ -32,6 +34,8 @@ def Err.code : Err → Nat
   | .undeclared => 11002
   | .closed => 11003
   | .alreadyOpen => 11004
+  | .pseudo => 11006
+  | .fetchLength => 11007
   | .invalidPosition => 11008
 
 /-- FETCH position: the token and the evaluated number (`int(i.Raw())`, an int64) -/
@@ -252,6 +256,37 @@ def stepOpenFailing {α} (s : Scope α) (n : String) : Option Err :=
   | .err e => some e
   | _ => none
 
+/-! ## FETCH … INTO v₁, …, vₖ and WHILE v₁, …, vₖ IN: the number of variables
+
+  query.go `FetchCursor`: the cursor is moved FIRST (`scope.FetchCursor`), then — only when a row came
+  back — `len(vars) != len(primaries)` is the CursorFetchLength error.  So a FETCH with the wrong number of
+  variables still moves the pointer, and is no error at all when it addresses no row.  `w r`: the number
+  of columns of row `r`. -/
+
+def stepFetchInto {α} (w : α → Nat) (s : Scope α) (n : String) (p : Pos) (nvars : Nat) : Scope α × Res α :=
+  match step s (.fetch n p) with
+  | (s', .row r) => if w r = nvars then (s', .row r) else (s', .err .fetchLength)
+  | x => x
+
+/-- WHILE v₁, …, vₖ IN: rows handed to the body, and the error that ended the loop (the state keeps the
+    pointer where the failing FETCH left it) -/
+def whileInto {α} (w : α → Nat) (nvars : Nat) : Nat → CState α → List α → CState α × List α × Option Err
+  | 0, c, acc => (c, acc.reverse, none)
+  | fuel + 1, c, acc =>
+    match c.fetch .next with
+    | .error e => (c, acc.reverse, some e)
+    | .ok (c', none) => (c', acc.reverse, none)
+    | .ok (c', some r) =>
+      if w r = nvars then whileInto w nvars fuel c' (r :: acc) else (c', acc.reverse, some .fetchLength)
+
+def stepWhileInto {α} (w : α → Nat) (s : Scope α) (n : String) (nvars : Nat) : Scope α × Res α :=
+  match lookup s (key n) with
+  | none => (s, .err .undeclared)
+  | some c =>
+    match whileInto w nvars (whileFuel c) c [] with
+    | (c', _, some e) => (update s (key n) c', .err e)
+    | (c', seen, none) => (update s (key n) c', .rows seen)
+
 /-- run a history; results in order -/
 def run {α} (s : Scope α) (ops : List (Op α)) : Scope α × List (Res α) :=
   match ops with
@@ -374,5 +409,35 @@ def nestS {α} (fuel : Nat) (pre : List (Op α)) (name : String) (body : List (I
       else
         let r3 := runOps st2 post
         (r3.1.tail, rs1 ++ rs2 ++ r3.2.1, true)
+
+/-! ## pseudo cursors: the first parameter of a user-defined aggregate function
+
+  function.go: the aggregate's body runs in a child scope whose `Blocks[0]` holds a PSEUDO cursor over the
+  list of values (NewPseudoCursor: view = the values, index −1, not fetched, isPseudo).  It can be fetched
+  from, looped over and asked for its status like an open cursor, but OPEN / CLOSE / DISPOSE of it are the
+  "pseudo cursor" error (Cursor.Open / Close and CursorMap.Dispose test isPseudo first), and a DECLARE of
+  its name in the body is "redeclared".  The caller's cursors are visible (dynamic scoping). -/
+
+def aggStep {α} (pk : String) (st : Stack α) (op : Op α) : Stack α × Res α :=
+  match op with
+  | .open n _ => if key n = pk then (st, .err .pseudo) else stepS st op
+  | .close n => if key n = pk then (st, .err .pseudo) else stepS st op
+  | .dispose n => if key n = pk then (st, .err .pseudo) else stepS st op
+  | _ => stepS st op
+
+def aggOps {α} (pk : String) (st : Stack α) (ops : List (Op α)) : Stack α × List (Res α) × Bool :=
+  match ops with
+  | [] => (st, [], false)
+  | op :: rest =>
+    match aggStep pk st op with
+    | (st', .err e) => (st', [.err e], true)
+    | (st', r) =>
+      let rr := aggOps pk st' rest
+      (rr.1, r :: rr.2.1, rr.2.2)
+
+/-- one call of the aggregate over `values`, its cursor parameter named `pname`; `s`: the caller's cursors -/
+def aggRun {α} (pname : String) (values : List α) (ops : List (Op α)) (s : Scope α) : Scope α × List (Res α) × Bool :=
+  let r := aggOps (key pname) [[(key pname, .opened values (-1) false)], s] ops
+  (r.1.getLastD s, r.2.1, r.2.2)
 
 end Csvq.Cursor
